@@ -43,6 +43,9 @@ var rewriteShapes = []string{
 	// alternation prefix factoring and atomic reordering/trimming
 	`abc|abd`, `abc|abd|x`, `ab|ac|ad`, `(?>abc|abd)`, `(?>ab|abc|ad)e?`, `(?>hi|there|hello)`, `(?>a|b|ab)c`, `(?>ab||c)d`, `(?>|a)b`, `(?>a||b)`, `this|that|there`, `(?:this|that)s`, `[ab]c|[ab]d`, `a.b|a.c`,
 	`(?>x(?:hi|there|hello))`, `(?>abc|abd|aec|abf)`, `(?i:abc|abd)`, `(abc|abd)\1`, `(?<=abc|abd)e`, `(?<=cba|dba)e`,
+	// balancing groups: the close fails while the popped group is empty and the matcher backtracks into the
+	// contents, so nothing inside is "at the end" (Properties/C05.v C05_R2_balancing_capture_refuted; fixed in 7e695b7)
+	`(?<a-b>x|(?<b>x))`, `(?=(?<a-b>x|(?<b>x)))x`, `a(?<a-b>(?<b>x)*?|x)`, `(?>(?<a-b>x*?|(?<b>x)))`, `(?<b>a)?(?<a-b>x|(?<b>x))c?`, `(?<a-b>(?:x|(?<b>x))+?)`, `(?<b>a)(?<-b>x*)x`,
 }
 
 // legGates: result(normal) == result(rewrite family switched off), on the real engine and on the reference semantics.
